@@ -1,5 +1,6 @@
 """C19 Results do not depend on word size, build features or serialization medium."""
 import json
+import re
 import os
 import framework as fw
 
@@ -105,6 +106,35 @@ def run(ctx):
             traces.append(tr)
         x = merge(ctx, fam, traces)
         ctx.monitor("xcfg-" + fam, "C19", "Trace_C19.tla", "Trace_C19.cfg", x, cover=cover, timeout=3000)
+    # long decimal (and base-3 / base-36) strings around the lengths where the divide-and-conquer parser adds a level to its
+    # power table: CHUNK_LEN * digits_per_word * 2^k, for the digits per word of both word sizes.  No oracle is needed here:
+    # the four configurations must agree on the outcome (a debug-only assertion failure is a disagreement).
+    import random
+    rnd = random.Random(ctx.seed)
+    chunk_len = 256
+    try:
+        chunk_len = int(re.search(r"const CHUNK_LEN: usize = (\d+);", open(os.path.join(os.environ.get("VERIF_REPO", "/repo"), "integer/src/parse/non_power_two.rs")).read()).group(1))
+    except Exception:
+        pass
+    ctx.scope["parse_chunk_len_words"] = chunk_len
+    lp = []
+    digs = "0123456789abcdefghijklmnopqrstuvwxyz"
+    for radix, dpws in ((10, (19, 9)), (3, (40, 20)), (36, (12, 6))):
+        for dpw in dpws:
+            for k in ((1, 2) if radix == 10 else (1,)):
+                base = chunk_len * dpw << k
+                for L in sorted({base - 1, base, base + 1, base + 2, base + (1 << k), base + (1 << k) + 1}):
+                    if L > ctx.pick(21000, 40000) or (ctx.quick and radix != 10 and L != base + 1):
+                        continue
+                    txt = digs[1 + rnd.randrange(radix - 1)] + "".join(digs[rnd.randrange(radix)] for _ in range(L - 1))
+                    lp.append({"op": "parse", "ty": "UI"[len(lp) % 2], "fn": "radix", "radix": radix, "text": list(txt.encode()), "chain": ""})
+    plp = ctx.path("cases-longparse.ndjson")
+    open(plp, "w").write("".join(json.dumps(c) + "\n" for c in lp))
+    ltr = []
+    for c in CFGS:
+        ltr.append(ctx.drive(fw.build(c, "c07"), ["--cases", plp, "--n", "0"], "trace-longparse-%s.ndjson" % c))
+    xl = merge(ctx, "longparse", ltr)
+    ctx.monitor("xcfg-longparse", "C19", "Trace_C19.tla", "Trace_C19.cfg", xl, cover=cover, timeout=3000)
     # the other families: one seeded driver run per configuration, monitors side by side
     next_ = ctx.pick(120, 1200)
     jobs, fam_traces = [], {}
